@@ -37,9 +37,29 @@ pub fn gen_reg_value(rng: &mut Rng, max: u64) -> (Elem, &'static str) {
             radix: *rng.pick(&['B', 'b']),
             digits: format!("{:b}", v),
         },
+        3 => Elem::Dec(spell_integer(rng, v)),
         _ => Elem::Dec(format!("{}", v)),
     };
     (e, tag)
+}
+
+/// Spell the integer `v` as a decimal literal in one of the NR1 / NR2 / NR3 forms that denote
+/// exactly `v` (no rounding involved).
+pub fn spell_integer(rng: &mut Rng, v: u64) -> String {
+    match rng.below(12) {
+        0 => format!("{}.0", v),
+        1 => format!("{}.", v),
+        2 => format!("{}E0", v),
+        3 => format!("{}.{}E1", v / 10, v % 10),
+        4 => format!("{}0E-1", v),
+        5 => format!("{}00e-2", v),
+        6 => format!("+{}", v),
+        7 => format!("00{}", v),
+        8 => format!("{}.000", v),
+        9 => format!("0.{:05}E5", v), // v < 100000
+        10 => format!("{}.0E+0", v),
+        _ => format!("{}", v),
+    }
 }
 
 pub fn wrong_type_elem(rng: &mut Rng) -> Elem {
@@ -287,6 +307,8 @@ impl Prop for C13 {
             "extended_text_item_read_back",
             "response_buffer_exhausted_at_terminator",
             "response_buffer_exhausted_in_queue_query",
+            "successful_query_with_failing_selftest",
+            "no_error_item_queued_behind_another",
         ];
         v.into_iter().map(String::from).collect()
     }
@@ -301,6 +323,7 @@ impl Prop for C13 {
             queue: queue_cfg(&mut rng),
             controllers,
             tree,
+            plain488: false,
         };
         let mut t = base_trace("C13", seed, run, "history", cfg.clone());
         let tc = TreeCtx::new(&cfg.tree);
@@ -319,6 +342,7 @@ impl Prop for C13 {
             queue: QueueModel::new(&cfg.queue),
             tst_code: 0,
             outq: vec![false; controllers as usize],
+            plain488: false,
         };
         // swarm weights
         let w_ok = *rng.pick(&[1u32, 3, 6]);
@@ -361,7 +385,14 @@ impl Prop for C13 {
                         Contrib::SystErrCount,
                         Contrib::SystErrAll,
                         Contrib::Esr,
+                        Contrib::Tst,
                     ]);
+                    if c == Contrib::Tst && g.rng.chance(1, 2) {
+                        // the hardware actor decides what the next self test finds
+                        let code = *g.rng.pick(&[0i16, -330, -240, 7, -100]);
+                        shadow.tst_code = code;
+                        t.steps.push(Step::Tst { code });
+                    }
                     g.single(c, true, vec![])
                 }
                 3 => g.single(Contrib::Opc, false, vec![]),
@@ -572,7 +603,7 @@ fn check_send(world: &mut World, before: &ModelState, i: usize, s: &SendStep, o:
             eprintln!("DEBUG inconsistent: {} -> {:?}, predicted {:?} (fail unit {:?})", describe_msg(s), o.result, pred.result, pred.fail_unit);
         }
         if let Some(cmds) = pure_contrib(world, s) {
-            if cmds.iter().all(|c| matches!(c, Contrib::SystErrNext | Contrib::SystErrAll | Contrib::SystErrCount | Contrib::Esr | Contrib::Opc)) {
+            if cmds.iter().all(|c| matches!(c, Contrib::SystErrNext | Contrib::SystErrAll | Contrib::SystErrCount | Contrib::Esr | Contrib::Opc | Contrib::Tst)) {
                 let code = match &o.result {
                     Ok(()) => "ok".to_string(),
                     Err(e) => format!("{}", e.code).replace('-', "m"),
@@ -642,6 +673,8 @@ fn check_send(world: &mut World, before: &ModelState, i: usize, s: &SendStep, o:
         }
         for (_, c, _) in &pred.executed {
             match c {
+                Contrib::Tst if before.tst_code != 0 => stats.probe("successful_query_with_failing_selftest"),
+                Contrib::SystErrAll if before.queue.items.iter().skip(1).any(|e| e.code == 0) => stats.probe("no_error_item_queued_behind_another"),
                 Contrib::SystErrAll if before.queue.items.len() >= 3 => stats.probe("all_with_three_or_more_items"),
                 Contrib::SystErrNext if before.queue.items.is_empty() => stats.probe("next_on_empty_queue"),
                 Contrib::SystErrNext | Contrib::SystErrAll => {
